@@ -236,6 +236,66 @@ def jac_partial_substitution_probe(ctx):
                      obs, "all true")
 
 
+def explicit_and_held_probe(ctx):
+    """the SAME leaf given as an explicit parameter and held by the function's object (the method uses both routes): rootfinder,
+    equilibrium and minimize give the values and the first / second-order gradients of the pure function (round-6 seed C09/16: the
+    backward made one differentiable copy per distinct tensor instead of one per position; the gradient was doubled).  quad, solve_ivp
+    and mcquad are not probed here: findings F35b, F37, F38"""
+    import xitorch as xt
+    from xitorch.optimize import rootfinder, equilibrium, minimize
+    DT = torch.float64
+    a0 = torch.tensor([1.3, 0.8, 2.1], dtype=DT)
+    b0 = torch.tensor([0.4, -0.7, 1.1], dtype=DT)
+    y0 = torch.zeros(3, dtype=DT)
+    w = torch.tensor([1.0, -2.0, 0.5], dtype=DT)
+    fpure = {"rootfinder": lambda y, a, b: a * y + torch.tanh(a) * y ** 3 - b,
+             "equilibrium": lambda y, a, b: (b - torch.tanh(a) * y ** 3) / a,
+             "minimize": lambda y, a, b: (0.5 * a * y ** 2 + 0.25 * torch.tanh(a) * y ** 4 - b * y).sum()}
+    fnl = {"rootfinder": rootfinder, "equilibrium": equilibrium, "minimize": minimize}
+
+    class Mod(xt.EditableModule):
+        def __init__(self, a, b, f):
+            self.a = a
+            self.b = b
+            self.fp = f
+
+        def f(self, y, a):
+            # the object-held route for the linear term, the explicit route for the cubic one
+            return self.fp_split(y, self.a, a, self.b)
+
+        def getparamnames(self, methodname, prefix=""):
+            return [prefix + "a", prefix + "b"]
+    split = {"rootfinder": lambda y, ah, ae, b: ah * y + torch.tanh(ae) * y ** 3 - b,
+             "equilibrium": lambda y, ah, ae, b: (b - torch.tanh(ae) * y ** 3) / ah,
+             "minimize": lambda y, ah, ae, b: (0.5 * ah * y ** 2 + 0.25 * torch.tanh(ae) * y ** 4 - b * y).sum()}
+    for name in ("rootfinder", "equilibrium", "minimize"):
+        def run(kind):
+            a = a0.clone().requires_grad_()
+            b = b0.clone().requires_grad_()
+            opts = dict(method="broyden1", f_tol=1e-13, x_tol=1e-13, maxiter=300)
+            with warnings.catch_warnings():
+                warnings.simplefilter("ignore")
+                if kind == "pure":
+                    y = fnl[name](fpure[name], y0, params=(a, b), **opts)
+                else:
+                    mod = Mod(a, b, None)
+                    mod.fp_split = split[name]
+                    y = fnl[name](mod.f, y0, params=(a,), **opts)
+                ga, gb = torch.autograd.grad((y * w).sum(), (a, b), create_graph=True)
+                gga, = torch.autograd.grad(ga.sum(), a)
+            return y.detach(), ga.detach(), gb.detach(), gga
+        ctx.count(("explicit-and-held", name), nontrivial=True)
+        try:
+            r1, r2 = run("pure"), run("module")
+        except Exception as e:
+            ctx.fail("oracle", "fkinds:%s:explicit-and-held:exception" % name, {}, repr(e)[:300], "values and gradients")
+            continue
+        errs = [float((u - v).abs().max()) for u, v in zip(r1, r2)]
+        if not (errs[0] <= 1e-8 and errs[1] <= 1e-6 and errs[2] <= 1e-6 and errs[3] <= 1e-5):
+            ctx.fail("oracle", "fkinds:%s:explicit-and-held" % name, {"kind": "EditableModule method using self.a AND the explicit argument a (the same leaf)"},
+                     {"value": errs[0], "dL_da": errs[1], "dL_db": errs[2], "d2L_da2": errs[3], "ratio_dL_da": (r2[1] / r1[1]).tolist()}, "equal to the pure function")
+
+
 def check(ctx):
     cases, meta = [], []
     uniq_cases(ctx, cases, meta)
@@ -248,9 +308,11 @@ def check(ctx):
     api_oracle(ctx)
     reuse_after_failure_oracle(ctx)
     jac_partial_substitution_probe(ctx)
+    explicit_and_held_probe(ctx)
 
 
 def search(ctx):
     api_oracle(ctx)
     reuse_after_failure_oracle(ctx)
     jac_partial_substitution_probe(ctx)
+    explicit_and_held_probe(ctx)
